@@ -6,6 +6,16 @@ from rules.util import strip, canon
 from symex import show
 
 
+def raw_callee(ctx, method, default):
+    """the per-byte operation a half's raw method delegates to: its single crate-local callee
+    (by resolved name, so a shared const-generic function is seen as its instance)"""
+    b = ctx.fb.body(method)
+    if b is None:
+        return default
+    local = [t.get("resolved") for _, t in b.calls() if t.get("resolved") in ctx.fb.bodies]
+    return local[0] if len(local) == 1 else default
+
+
 def step_rule(ctx, rep, fn, direction, keylen):
     """fn(data: &mut [u8], key, index: &mut u8, previous_value: &mut u8).  Decides the per-byte
     transfer function, the state discipline inside the function and the traversal idiom."""
